@@ -211,6 +211,16 @@ Proof.
   - rewrite get_inner_append. now rewrite get_inner_last.
 Qed.
 
+Lemma h_drop_empty_ref h0 c0 t b h1 c1 :
+  h_drop_empty h0 c0 t b = (h1, c1) -> to_comp h1 c1 = drop_empty (to_comp h0 c0) t b.
+Proof.
+  unfold h_drop_empty, drop_empty. cbn [to_comp cshards ccoords cfin].
+  destruct (((0 <? t) || (0 <? b)) && (shards_rows (deref h0 (hid c0)) =? 0)).
+  - destruct (alloc_outer h0 []) as [h2 id] eqn:E. intros [= <- <-]. unfold to_comp. cbn [hid hcoords hfin].
+    rewrite (alloc_outer_val _ _ _ _ E) by constructor. reflexivity.
+  - intros [= <- <-]. reflexivity.
+Qed.
+
 Lemma h_pad_tb_ref h c t b h' c' :
   h_pad_trim_top_bottom h c t b = Ok (h', c') -> scoped h (hid c) ->
   comp_pad_trim_top_bottom (to_comp h c) t b = Ok (to_comp h' c').
@@ -224,13 +234,21 @@ Proof.
                         (if (t <? 0) || (b <? 0)
                          then comp_trim (to_comp h c) (Z.max 0 (- t)) (Some (shards_rows (deref h (hid c)) - Z.max 0 (- t) - Z.max 0 (- b)))
                          else Ok (to_comp h c)) = Ok (to_comp h1 c1) /\ scoped h1 (hid c1) /\ hext h h1 /\
-                        (hid c1 = hid c \/ zlen (outer h) <= hid c1)) as (h1 & c1 & Ea & Pa & S1 & X1 & I1).
+                        (hid c1 = hid c \/ zlen (outer h) <= hid c1)) as (h0 & c0 & Ea & Pa & S0 & X0 & I0).
   { destruct ((t <? 0) || (b <? 0)).
     - destruct (h_trim h c _ _) as [[h1 c1]|e] eqn:E; [|discriminate]. exists h1, c1. split; [reflexivity|].
       destruct (h_trim_ext _ _ _ _ _ _ E) as [X I]. split; [now apply h_trim_ref|]. split; [eapply h_trim_scoped; eauto|]. auto.
     - exists h, c. split; [reflexivity|]. split; [reflexivity|]. split; [assumption|]. split; [apply hext_refl|now left]. }
   rewrite Ea in H. rewrite Pa. cbn [to_comp cshards ccoords].
-  set (cols := shards_cols (deref h1 (hid c1))) in *.
+  set (cols := shards_cols (deref h0 (hid c0))) in *.
+  (* the 0-row clause *)
+  destruct (h_drop_empty h0 c0 t b) as [h1 c1] eqn:Ed.
+  fold (to_comp h0 c0). rewrite <- (h_drop_empty_ref _ _ _ _ _ _ Ed). cbn [to_comp cshards ccoords].
+  pose proof (h_drop_empty_scoped _ _ _ _ _ _ Ed S0) as S1.
+  destruct (h_drop_empty_ext _ _ _ _ _ _ Ed) as [Xd Id].
+  assert (X1 : hext h h1) by (eapply hext_trans; eauto).
+  assert (I1 : hid c1 = hid c \/ zlen (outer h) <= hid c1).
+  { destruct Id as [Id|Id]; [rewrite Id; exact I0|]. right. destruct X0 as (L & _). lia. }
   (* stage b *)
   assert (exists h2 c2, (if 0 <? t
                          then let '(h'0, id) := alloc_outer h1 ((t, IFresh (blank_cvs cols t)) :: shared (get_outer h1 (hid c1))) in
@@ -270,8 +288,8 @@ Proof.
   destruct ((t <? 0) || (b <? 0)).
   - unfold h_trim.
     destruct (comp_trim (to_comp h c) (Z.max 0 (- t)) (Some (shards_rows (deref h (hid c)) - Z.max 0 (- t) - Z.max 0 (- b)))) as [c1|e1]; [|now intros [= <-]].
-    kill_alloc. cbn zeta. destruct (0 <? t); kill_alloc; destruct (0 <? b); try destruct (_ =? _); kill_alloc; discriminate.
-  - cbn zeta. destruct (0 <? t); kill_alloc; destruct (0 <? b); try destruct (_ =? _); kill_alloc; discriminate.
+    kill_alloc. cbn zeta. destruct (h_drop_empty _ _ t b) as [? ?]. destruct (0 <? t); kill_alloc; destruct (0 <? b); try destruct (_ =? _); kill_alloc; discriminate.
+  - cbn zeta. destruct (h_drop_empty _ _ t b) as [? ?]. destruct (0 <? t); kill_alloc; destruct (0 <? b); try destruct (_ =? _); kill_alloc; discriminate.
 Qed.
 
 (* ------------------------------------------------------------------ CanvasCombine *)
